@@ -24,13 +24,16 @@ Two variants of the implementation are supported (`variant()` probes which one i
             `isonorm2`, `kept2`, `stiso2`, graph dumps with `ct=2`).  For this matcher `Properties/C15.lean` *proves* the
             full statement (`iso_sound`, `iso_normalised_sound`, `dedup_sound`), so a false-equal is a plain VIOLATION (no
             finding key covers it), the witnesses must be told apart, and on every pair the model's own answer is checked
-            against the model's brute-force `renEq` (reported isomorphic => equal up to renaming).
+            against the model's brute-force `renEq` (reported isomorphic => equal up to renaming).  The converse is proved
+            too (`iso_complete`, `filter_comparison_decides_renaming`): renamed copies, also with operations on disjoint
+            registers appended in another order (pair class `renamed+reordered`), must be reported isomorphic.
   coded     the matcher before the repair: compared with `circuitIsIsomorphic` / `isoNormalised` / `removeRedundant`, for
             which `Properties/C15.lean` keeps the kernel-checked refutation (`iso_sound_refuted`).  The key
             `is_isomorphic:wire-continuity:false-equal` is emitted only for this variant; it is no longer in
             known_findings.txt, so a regression of the repair is reported as a VIOLATION.
 """
 import itertools
+import random
 
 from harness import circutil as cu
 from harness.common import Driver, Result, err_class
@@ -257,6 +260,35 @@ def order_swapped(rng, c):
     return (ne, np_, nc, ts2)
 
 
+def all_regs(t):
+    """all registers of an operation tuple, quantum and classical"""
+    cl = {("c", t[4])} if t[0] == "cctrl" else ({("c", t[2])} if t[0] == "meas" else set())
+    return regs_touched(t) | cl
+
+
+def reordered(rng, c, tries=12):
+    """exchange neighbouring operations that share no register at all (quantum or classical): the DAG is the same up to node ids,
+    so the isomorphism comparison must not notice (Properties/C15.iso_complete, reordering_does_not_change_the_answer)"""
+    ne, np_, nc, ts = c
+    ts2 = list(ts)
+    for _ in range(tries):
+        cand = [i for i in range(len(ts2) - 1) if not (all_regs(ts2[i]) & all_regs(ts2[i + 1]))]
+        if not cand:
+            break
+        i = rng.choice(cand)
+        ts2[i], ts2[i + 1] = ts2[i + 1], ts2[i]
+    return (ne, np_, nc, ts2)
+
+
+def gen_reordered(rng, n):
+    out = []
+    while len(out) < n:
+        c = random_small(rng, max_q=5, max_ops=12) if rng.random() < 0.8 else random_multi(rng)
+        d = reordered(rng, rename(rng, c))
+        out.append(("renamed+reordered", c, d))
+    return out
+
+
 def random_multi(rng):
     """3..5 quantum registers, mostly two-register gates: pairs of gates that share one late wire"""
     ne = rng.randrange(1, 4)
@@ -376,8 +408,9 @@ def check_pair(res, kind, c1, c2, rep, want_state=True):
             res.violation(f"{meth}:raises:{impl[meth]}", "isomorphism comparison raised on two valid circuits", input=inp)
     if kind == "copy" and impl["iso"] != "1":
         res.violation("is_isomorphic:not-reflexive", "a circuit is not isomorphic to its copy", input=inp)
-    if kind == "renamed" and (impl["iso"] != "1" or impl["isonorm"] != "1"):
-        res.violation("is_isomorphic:false-distinct:renamed", "a circuit is not isomorphic to a copy with the registers of each type permuted", input=inp,
+    if kind in ("renamed", "renamed+reordered") and (impl["iso"] != "1" or impl["isonorm"] != "1"):
+        res.violation("is_isomorphic:false-distinct:renamed", "a circuit is not isomorphic to a copy with the registers of each type permuted"
+                      + (" and operations on disjoint registers appended in another order" if kind != "renamed" else ""), input=inp,
                       impl=f"{impl['iso']}/{impl['isonorm']}")
     if kind in ("rewritten",) and same_wires and impl["isonorm"] == "0":
         coded = rep.get(fld("isonorm")) == "0"
@@ -742,6 +775,8 @@ def run(ctx):
     run_graphs(res, drv, [random_small(rng, max_q=5, max_ops=14) for _ in range(150 if q else 1500)])
     run_filters(res, drv, rng, 60 if q else 600)
     run_ged(res, rng, 12 if q else 60)
+    # completeness side of the repaired comparison (own generator, drawn last so that the streams above are unchanged)
+    run_pairs(res, drv, gen_reordered(random.Random(rng.getrandbits(64)), 120 if q else 1200))
     # findings reproduced on this run
     for key, desc in ((K_WIRE, "is_isomorphic false-equal"),):
         if any(v["key"] == key for v in res.violations):
